@@ -11,7 +11,7 @@ The rest are facts about the stored table of `finish`.
 -/
 import DitModel.Lemmas.Table
 import DitModel.Lemmas.Machine
-import Mathlib.Algebra.Order.Field.Rat
+import Mathlib.Algebra.Ring.Rat
 
 set_option linter.unusedSectionVars false
 
@@ -620,5 +620,273 @@ theorem get_of_mem_tab {d : Dist σ α} (hnd : (keys d.tab).Nodup)
   rw [(lookup?_eq_some_iff hnd).mpr hr]; rfl
 
 end Aligned
+
+/-! ## Alphabets -/
+
+section Alphabets
+variable [DecidableEq σ]
+
+/-- `sameLength`: all rows have one common length. -/
+theorem sameLength_iff {l : List (List σ)} :
+    sameLength l = true ↔ ∀ x ∈ l, ∀ y ∈ l, x.length = y.length := by
+  cases l with
+  | nil => simp [sameLength]
+  | cons o t =>
+    simp only [sameLength, List.all_eq_true, beq_iff_eq]
+    constructor
+    · intro h
+      have h' : ∀ x ∈ o :: t, x.length = o.length := by
+        intro x hx
+        rcases List.mem_cons.mp hx with rfl | hx
+        · rfl
+        · exact h x hx
+      intro x hx y hy
+      rw [h' x hx, h' y hy]
+    · intro h x hx
+      exact h x (List.mem_cons_of_mem _ hx) o (List.mem_cons_self ..)
+
+theorem alphabetsOf_cons (o : List σ) (t : List (List σ)) :
+    alphabetsOf (o :: t)
+      = (List.range o.length).map (fun i => dedup ((o :: t).filterMap (fun x => x[i]?))) := rfl
+
+/-- There is one alphabet per position of the first outcome. -/
+theorem length_alphabetsOf_cons (o : List σ) (t : List (List σ)) :
+    (alphabetsOf (o :: t)).length = o.length := by
+  rw [alphabetsOf_cons, List.length_map, List.length_range]
+
+/-- The `i`-th alphabet is the de-duplicated list of `i`-th symbols. -/
+theorem getElem?_alphabetsOf {os : List (List σ)} {i : Nat} {a : List σ}
+    (h : (alphabetsOf os)[i]? = some a) : a = dedup (os.filterMap (fun x => x[i]?)) := by
+  cases os with
+  | nil => simp [alphabetsOf] at h
+  | cons o t =>
+    rw [alphabetsOf_cons, List.getElem?_map, Option.map_eq_some_iff] at h
+    obtain ⟨j, hj, rfl⟩ := h
+    obtain ⟨_, hj'⟩ := List.getElem?_eq_some_iff.mp hj
+    rw [List.getElem_range] at hj'
+    rw [hj']
+
+/-- The `i`-th alphabet of an explicit sample space holds exactly the `i`-th symbols of its
+members. -/
+theorem mem_alphabetsOf {os : List (List σ)} {i : Nat} {a : List σ}
+    (h : (alphabetsOf os)[i]? = some a) (s : σ) : s ∈ a ↔ ∃ o ∈ os, o[i]? = some s := by
+  rw [getElem?_alphabetsOf h, mem_dedup, List.mem_filterMap]
+
+/-- No alphabet of an explicit sample space is empty. -/
+theorem alphabetsOf_ne_nil {os : List (List σ)} {a : List σ} (h : a ∈ alphabetsOf os) :
+    a ≠ [] := by
+  obtain ⟨i, hi⟩ := List.mem_iff_getElem?.mp h
+  cases os with
+  | nil => simp [alphabetsOf] at h
+  | cons o t =>
+    have hlt : i < o.length := by
+      have := (List.getElem?_eq_some_iff.mp hi).1
+      rwa [length_alphabetsOf_cons] at this
+    have : o[i] ∈ a := (mem_alphabetsOf hi _).mpr ⟨o, List.mem_cons_self .., List.getElem?_eq_getElem hlt⟩
+    exact List.ne_nil_of_mem this
+
+/-- With rows of one common length, that length is the number of alphabets. -/
+theorem length_eq_length_alphabetsOf {os : List (List σ)} (h : sameLength os = true)
+    {o : List σ} (ho : o ∈ os) : o.length = (alphabetsOf os).length := by
+  cases os with
+  | nil => cases ho
+  | cons o' t =>
+    rw [length_alphabetsOf_cons]
+    exact sameLength_iff.mp h o ho o' (List.mem_cons_self ..)
+
+theorem mem_cartesian_cons {a : List σ} {rest : List (List σ)} {o : List σ} :
+    o ∈ cartesian (a :: rest) ↔ ∃ x ∈ a, ∃ o' ∈ cartesian rest, o = x :: o' := by
+  simp only [cartesian, List.mem_flatMap, List.mem_map]
+  constructor
+  · rintro ⟨x, hx, o', ho', rfl⟩; exact ⟨x, hx, o', ho', rfl⟩
+  · rintro ⟨x, hx, o', ho', rfl⟩; exact ⟨x, hx, o', ho', rfl⟩
+
+/-- A product of non-empty alphabets is non-empty. -/
+theorem exists_mem_cartesian {as : List (List σ)} (h : ∀ a ∈ as, a ≠ []) :
+    ∃ o, o ∈ cartesian as := by
+  induction as with
+  | nil => exact ⟨[], by simp [cartesian]⟩
+  | cons a rest ih =>
+    obtain ⟨o', ho'⟩ := ih (fun b hb => h b (List.mem_cons_of_mem _ hb))
+    obtain ⟨x, hx⟩ := List.exists_mem_of_ne_nil a (h a (List.mem_cons_self ..))
+    exact ⟨x :: o', mem_cartesian_cons.mpr ⟨x, hx, o', ho', rfl⟩⟩
+
+/-- The `i`-th alphabet of a product of non-empty alphabets holds exactly the `i`-th symbols
+of the members of the product. (If some alphabet is empty the product is empty, and the
+right-hand side is false for every symbol.) -/
+theorem mem_alphabet_cartesian {as : List (List σ)} (hne : ∀ a ∈ as, a ≠ []) {i : Nat}
+    {a : List σ} (h : as[i]? = some a) (s : σ) :
+    s ∈ a ↔ ∃ o ∈ cartesian as, o[i]? = some s := by
+  constructor
+  · intro hs
+    induction as generalizing i with
+    | nil => simp at h
+    | cons a0 rest ih =>
+      have hrest : ∀ b ∈ rest, b ≠ [] := fun b hb => hne b (List.mem_cons_of_mem _ hb)
+      cases i with
+      | zero =>
+        simp only [List.getElem?_cons_zero, Option.some.injEq] at h
+        subst h
+        obtain ⟨o', ho'⟩ := exists_mem_cartesian hrest
+        exact ⟨s :: o', mem_cartesian_cons.mpr ⟨s, hs, o', ho', rfl⟩, by simp⟩
+      | succ i =>
+        simp only [List.getElem?_cons_succ] at h
+        obtain ⟨o', ho', hs'⟩ := ih hrest h
+        obtain ⟨x, hx⟩ := List.exists_mem_of_ne_nil a0 (hne a0 (List.mem_cons_self ..))
+        exact ⟨x :: o', mem_cartesian_cons.mpr ⟨x, hx, o', ho', rfl⟩, by simpa using hs'⟩
+  · rintro ⟨o, ho, hs⟩
+    obtain ⟨hlen, hall⟩ := mem_cartesian_iff_getElem.mp ho
+    obtain ⟨hi, rfl⟩ := List.getElem?_eq_some_iff.mp hs
+    obtain ⟨hi', rfl⟩ := List.getElem?_eq_some_iff.mp h
+    exact hall i hi hi'
+
+/-- **Alphabets of a sample space.** If no alphabet is empty, the `i`-th alphabet is exactly
+the set of `i`-th symbols of the members. For explicit spaces the hypothesis always holds
+(`alphabetsOf_ne_nil`). -/
+theorem mem_alphabets_iff (sp : Space σ) (hne : ∀ a ∈ sp.alphabets, a ≠ []) {i : Nat}
+    {a : List σ} (h : sp.alphabets[i]? = some a) (s : σ) :
+    s ∈ a ↔ ∃ o ∈ sp.toList, o[i]? = some s := by
+  cases sp with
+  | cart as => exact mem_alphabet_cartesian hne h s
+  | expl os => exact mem_alphabetsOf h s
+
+/-- Every member of a product has one symbol per alphabet. -/
+theorem length_eq_length_alphabets_cart {as : List (List σ)} {o : List σ}
+    (ho : o ∈ (Space.cart as).toList) : o.length = (Space.cart as).alphabets.length :=
+  length_of_mem_cartesian ho
+
+end Alphabets
+
+/-! ## The sample space built from the argument -/
+
+section SpaceArg
+variable [DecidableEq σ]
+variable (symLt : σ → σ → Bool) (outLt : List σ → List σ → Bool) (outs : List (List σ))
+
+theorem isort_ne_nil {β : Type} (lt : β → β → Bool) {l : List β} (h : l ≠ []) :
+    isort lt l ≠ [] := by
+  intro e
+  have := length_isort lt l
+  rw [e] at this
+  exact h (List.length_eq_zero_iff.mp this.symm)
+
+/-- No alphabet of the built sample space is empty, unless an empty alphabet was passed in a
+`CartesianProduct`. -/
+theorem spaceArg_alphabets_ne_nil (sp : SpaceArg σ)
+    (hne : match sp with
+      | .cartesian as => ∀ a ∈ as, a ≠ []
+      | _ => True) :
+    ∀ a ∈ (spaceArg symLt outLt outs sp).alphabets, a ≠ [] := by
+  intro a ha
+  cases sp with
+  | none =>
+    obtain ⟨b, hb, rfl⟩ := List.mem_map.mp ha
+    exact isort_ne_nil _ (alphabetsOf_ne_nil hb)
+  | list l => exact alphabetsOf_ne_nil ha
+  | sampleSpace l => exact alphabetsOf_ne_nil ha
+  | cartesian as =>
+    obtain ⟨b, hb, rfl⟩ := List.mem_map.mp ha
+    exact isort_ne_nil _ (hne b hb)
+
+/-- Every alphabet of the built sample space is duplicate-free, unless an alphabet with a
+repeated symbol was passed in a `CartesianProduct`. -/
+theorem spaceArg_alphabets_nodup (sp : SpaceArg σ)
+    (hnd : match sp with
+      | .cartesian as => ∀ a ∈ as, a.Nodup
+      | _ => True) :
+    ∀ a ∈ (spaceArg symLt outLt outs sp).alphabets, a.Nodup := by
+  intro a ha
+  cases sp with
+  | none =>
+    obtain ⟨b, hb, rfl⟩ := List.mem_map.mp ha
+    exact nodup_isort.mpr (Machine.alphabetsOf_nodup _ b hb)
+  | list l => exact Machine.alphabetsOf_nodup _ a ha
+  | sampleSpace l => exact Machine.alphabetsOf_nodup _ a ha
+  | cartesian as =>
+    obtain ⟨b, hb, rfl⟩ := List.mem_map.mp ha
+    exact nodup_isort.mpr (hnd b hb)
+
+/-- The enumeration of the built sample space is duplicate-free if the supplied one is (always,
+when it is derived from the outcomes). -/
+theorem spaceArg_toList_nodup (sp : SpaceArg σ)
+    (hnd : match sp with
+      | .none => True
+      | .list l => l.Nodup
+      | .sampleSpace l => l.Nodup
+      | .cartesian as => ∀ a ∈ as, a.Nodup) :
+    (spaceArg symLt outLt outs sp).toList.Nodup := by
+  cases sp with
+  | none =>
+    refine nodup_cartesian ?_
+    intro a ha
+    obtain ⟨b, hb, rfl⟩ := List.mem_map.mp ha
+    exact nodup_isort.mpr (Machine.alphabetsOf_nodup _ b hb)
+  | list l => exact hnd
+  | sampleSpace l => exact nodup_isort.mpr hnd
+  | cartesian as =>
+    refine nodup_cartesian ?_
+    intro a ha
+    obtain ⟨b, hb, rfl⟩ := List.mem_map.mp ha
+    exact nodup_isort.mpr (hnd b hb)
+
+/-- After the ragged check, every member of the built sample space has one symbol per
+alphabet. -/
+theorem spaceArg_length (sp : SpaceArg σ) (hrect : raggedArg outs sp = false) {o : List σ}
+    (ho : o ∈ (spaceArg symLt outLt outs sp).toList) :
+    o.length = (spaceArg symLt outLt outs sp).alphabets.length := by
+  cases sp with
+  | none => exact length_of_mem_cartesian ho
+  | cartesian as => exact length_of_mem_cartesian ho
+  | list l =>
+    have h : sameLength l = true := by simpa [raggedArg, ssArg] using hrect
+    exact length_eq_length_alphabetsOf h ho
+  | sampleSpace l =>
+    have h : sameLength l = true := by simpa [raggedArg, ssArg] using hrect
+    have h' : sameLength (isort outLt l) = true := by
+      rw [sameLength_iff] at h ⊢
+      intro x hx y hy
+      exact h x (mem_isort.mp hx) y (mem_isort.mp hy)
+    exact length_eq_length_alphabetsOf h' ho
+
+/-- Without a supplied sample space the alphabets hold exactly the symbols of the specified
+outcomes, position by position. -/
+theorem mem_alphabets_none {i : Nat} {a : List σ}
+    (h : (spaceArg symLt outLt outs SpaceArg.none).alphabets[i]? = some a) (s : σ) :
+    s ∈ a ↔ ∃ o ∈ outs, o[i]? = some s := by
+  change ((alphabetsOf outs).map (isort symLt))[i]? = some a at h
+  rw [List.getElem?_map, Option.map_eq_some_iff] at h
+  obtain ⟨b, hb, rfl⟩ := h
+  rw [mem_isort]
+  exact mem_alphabetsOf hb s
+
+/-- The ragged check fails exactly when two rows of the checked list differ in length (never
+for a `CartesianProduct`, whose checked list is empty). -/
+theorem raggedArg_eq_false_iff (sp : SpaceArg σ) :
+    raggedArg outs sp = false ↔
+      ∀ x ∈ ssArg outs sp, ∀ y ∈ ssArg outs sp, x.length = y.length := by
+  cases sp with
+  | cartesian as => simp [raggedArg, ssArg]
+  | none => simp only [raggedArg, Bool.not_eq_false', sameLength_iff]
+  | list l => simp only [raggedArg, Bool.not_eq_false', sameLength_iff]
+  | sampleSpace l => simp only [raggedArg, Bool.not_eq_false', sameLength_iff]
+
+theorem raggedArg_eq_true_iff (sp : SpaceArg σ) :
+    raggedArg outs sp = true ↔
+      ∃ x ∈ ssArg outs sp, ∃ y ∈ ssArg outs sp, x.length ≠ y.length := by
+  rw [← Bool.not_eq_false, raggedArg_eq_false_iff]
+  push Not
+  rfl
+
+end SpaceArg
+
+/-! ## Concrete data for the non-vacuity examples of Props/C01.lean -/
+
+/-- A concrete configuration: exact comparison with 0 and 1. -/
+def ratCfg : NumCfg Rat :=
+  { isNull := fun _ v => decide (v = 0), normOK := fun _ v => decide (v = 1),
+    rangeOK := fun _ v => decide (0 ≤ v) && decide (v ≤ 1) }
+
+/-- Order on natural-number symbols. -/
+def natLt : Nat → Nat → Bool := fun a b => decide (a < b)
 
 end Dit.Lemmas.Construct
